@@ -154,6 +154,8 @@ def _scenario(name, case, scratch):
             for nm in seq[1:]:
                 g.setLayout(nm)
                 ok = ok and lay.same(g.getAllData(), lay.block(G3, g.getLayout(nm)))
+            if name == 'T2':
+                return ok          # the tiny world stays tiny: every arrival order of it is enumerated without a bound
             # a complex grid WITH save memory: the save buffer serves as receive buffer while nothing is saved (its datatype
             # and size take part in the collectives), and holds the copy afterwards
             s2 = LayoutSwapper(MPI.COMM_WORLD, [lp, lv, lpol], [nprocs, nprocs[0], nprocs[1]], eta[:3], 'mode_solve')
